@@ -54,6 +54,9 @@ class OpenLocked:
 
     def __exit__(self, exc_type, exc_value, traceback):
         try:
+            # Write out buffered data while we still hold the lock. Otherwise
+            # the next lock holder may read a truncated file.
+            if self.fd.writable(): self.fd.flush()
             unlockFile(self.fd)
         finally:
             self.fd.close()
